@@ -440,12 +440,9 @@ def deployRemoteWithMinter (C : Crypto) (cx : ICtx) (salt minter destChain : Byt
       checkTokenMinter C cx tokenId minter
       match destMinter with
       | some dm =>
-        let key := deployApprovalKey C minter tokenId destChain
-        let st ← getI
-        require (!(st.approvedMinters key).isEmpty)
-        require (st.approvedMinters key == C.H dm)
-        setI { st with approvedMinters := upd st.approvedMinters key [] }
-        pure dm
+        match useDeployApproval C (← getI) minter tokenId destChain dm with
+        | none => fail
+        | some st' => setI st'; pure dm
       | none => pure minter
     else do
       require destMinter.isNone
